@@ -41,7 +41,7 @@ Definition obs_eqb (a b : obs) : bool :=
   | OLines l, OLines l' => lines_eqb l l'
   | OFile (FText r), OFile (FText r') => text_eqb r r'
   | OFile (FBytes r), OFile (FBytes r') => text_eqb r r'
-  | ODep d, ODep d' => Bool.eqb d d'
+  | ODep _, ODep _ => true        (* an internal hint, not part of the text: not compared *)
   | OFrozen, OFrozen => true
   | OExc, OExc => true
   | _, _ => false
@@ -82,7 +82,6 @@ Definition kinds (t : text) : list src := [SStr t; SFile t; SProg t cs0].
 Definition kind_verdicts (b extra : N) (te ta : text) (tr : option trans) : list (option bool) :=
   flat_map (fun e => map (fun x => fst (m_eval b extra (MEquals e) (build x tr))) (kinds ta)) (kinds te).
 
-(** ** Cases of the correspondence check *)
 (** ** Cases of the correspondence check *)
 Inductive case :=
 | CaseAccess (base : src) (t : option trans) (b : N) (accs : list access) (observed : list obs)
